@@ -37,8 +37,14 @@ class C(metaclass=M1):
 class D(metaclass=M2):
     def __init__(self, *args, **kwargs):
         LOG.append(("D", self, args, kwargs))
+class E(metaclass=M2):
+    """instances are falsy (an empty container)"""
+    def __init__(self, *args, **kwargs):
+        LOG.append(("E", self, args, kwargs))
+    def __len__(self):
+        return 0
 '''
-CLASSES = ("A", "B", "C", "D")
+CLASSES = ("A", "B", "C", "D", "E")
 # argument forms: name -> (args, kwargs as ordered list of pairs)
 FORMS = {
     "one": ((1,), []), "two": ((2,), []), "three": ((3,), []), "minus1": ((-1,), []), "minus2": ((-2,), []),
@@ -64,7 +70,12 @@ def run(ctx):
     h = H(ctx.src, [MOD])
     n = 0
     for hf in ("None", "first", "parity"):
-        prestates = [p for p in itertools.product((False, True), repeat=4)]
+        prestates = [p for p in itertools.product((False, True), repeat=5)]
+        if not ctx.thorough:
+            keep = [(0, 0, 0, 0, 0), (1, 0, 0, 0, 0), (0, 1, 0, 0, 0), (1, 1, 0, 0, 0), (0, 0, 1, 0, 0), (1, 0, 1, 0, 1), (0, 0, 0, 1, 0), (0, 0, 0, 0, 1), (0, 0, 0, 1, 1), (1, 1, 1, 1, 1)]
+            if hf != "None":
+                keep = keep[:1] + keep[3:4] + keep[7:8] + keep[-1:]
+            prestates = [tuple(bool(x) for x in k) for k in keep]
         for pre in prestates:
             live = [c for c, on in zip(CLASSES, pre) if on]
             extra_two = pre[0]  # A also holds `two`
@@ -87,10 +98,10 @@ def run(ctx):
                     qual = MOD + {"call": ".semi_singleton_metaclass.<locals>._SemiSingleton.__call__", "check": ".check_semi_singleton_entry_exists", "get_all": ".get_all_semi_singleton_instances",
                                   "clear": ".clear_semi_singleton", "drop": ".drop_semi_singleton_mapping", "add": ".add_mapping"}[opn]
                     others = [x for x in live if x != c]
-                    cls = f"hashfunc={hf},op={opn},form={'hash-colliding' if f in ('minus1', 'minus2') else ('keyword' if f and f.startswith('kw') else 'plain')},other-classes-live={bool(others)}"
+                    cls = f"hashfunc={hf},op={opn},target={'falsy-instance-class' if c == 'E' else 'plain'},form={'hash-colliding' if f in ('minus1', 'minus2') else ('keyword' if f and f.startswith('kw') else 'plain')},other-classes-live={bool(others)}"
                     res.violation("MAP-STEP", qual, cls, f"hash function {hf}, live mappings for key `one`: {live}{' (A also `two`)' if extra_two else ''}, operation {op}: {why}", replay=replay(hf, live, extra_two, op))
     res.rule("MAP-STEP", n)
-    common.vacuity(res, "MAP-STEP", 1500)
+    common.vacuity(res, "MAP-STEP", 1000)
     res.analysed = common.analysed(ctx, [MOD + "." + f for f in ("semi_singleton_metaclass", "add_mapping", "drop_semi_singleton_mapping", "check_semi_singleton_entry_exists", "get_all_semi_singleton_instances", "clear_semi_singleton")])
     res.explanation = "Each operation maps every reachable state of the per-class key->instance maps to the model's state and returns what the model returns; induction covers every history."
 
@@ -218,7 +229,7 @@ def replay(hf, live, extra_two, op):
     L = ["from edgegraph.structure.singleton import *", "def parity(a, k): return a[0] % 2 if a else 'none'", "def first(a, k): return ('k', a, tuple(sorted(k.items())))",
          f"M1 = semi_singleton_metaclass({hf}); M2 = semi_singleton_metaclass({hf})",
          "class A(metaclass=M1):\n    def __init__(self, *a, **k): print('init A', a, k)", "class B(A):\n    def __init__(self, *a, **k): print('init B', a, k)",
-         "class C(metaclass=M1):\n    def __init__(self, *a, **k): print('init C', a, k)", "class D(metaclass=M2):\n    def __init__(self, *a, **k): print('init D', a, k)"]
+         "class C(metaclass=M1):\n    def __init__(self, *a, **k): print('init C', a, k)", "class D(metaclass=M2):\n    def __init__(self, *a, **k): print('init D', a, k)", "class E(metaclass=M2):\n    def __init__(self, *a, **k): print('init E', a, k)\n    def __len__(self): return 0"]
     for c in live:
         L.append(f"i{c} = {c}(1)")
     if extra_two:
@@ -239,5 +250,5 @@ def replay(hf, live, extra_two, op):
         L.append(f"drop_semi_singleton_mapping({c}, {a})")
     else:
         L.append(f"add_mapping(i{c}, {a})")
-    L.append("for K in (A, B, C, D): print(K.__name__, [check_semi_singleton_entry_exists(K, x) for x in (1, 2, 3, -1, -2)])")
+    L.append("for K in (A, B, C, D, E): print(K.__name__, [check_semi_singleton_entry_exists(K, x) for x in (1, 2, 3, -1, -2)])")
     return "\n".join(L)
